@@ -64,16 +64,19 @@ def prep_schema(detector, medium_index, illum_wavelen, illum_polarization):
             if isinstance(illum_wavelen, xr.DataArray):
                 pass
             else:
-                if len(illum_wavelen) == 1:
-                    illum_wavelen = illum_wavelen.repeat(
-                        len(illum_polarization.illumination))
                 labels = illum_polarization.illumination
-                if (illumination in detector.dims and
+                if len(illum_wavelen) == 1:
+                    illum_wavelen = illum_wavelen.repeat(len(labels))
+                elif (illumination in detector.dims and
                         len(detector.illumination) == len(labels) and
                         all(label in list(detector.illumination.values)
                             for label in labels.values)):
                     #  the same channels: wavelengths in the detector's order
+                    #  (by value, if the channels are labelled by wavelength)
                     labels = detector.illumination
+                    if all(label in list(illum_wavelen)
+                           for label in labels.values):
+                        labels = illum_wavelen
                 illum_wavelen = xr.DataArray(
                     illum_wavelen, dims=illumination,
                     coords={illumination: labels})
